@@ -373,6 +373,30 @@ func c17ReachAvoiding(from, to, avoid *ssa.BasicBlock) bool {
 	return false
 }
 
+// c17ReachAvoidingGiven: like c17ReachAvoiding, not following edges that are infeasible.
+func c17ReachAvoidingGiven(from, to, avoid *ssa.BasicBlock, infeasible func(from, to *ssa.BasicBlock) bool) bool {
+	seen := map[*ssa.BasicBlock]bool{}
+	work := []*ssa.BasicBlock{from}
+	for len(work) > 0 {
+		b := work[len(work)-1]
+		work = work[:len(work)-1]
+		if b == avoid || seen[b] {
+			continue
+		}
+		seen[b] = true
+		if b == to {
+			return true
+		}
+		for _, s := range b.Succs {
+			if infeasible != nil && infeasible(b, s) {
+				continue
+			}
+			work = append(work, s)
+		}
+	}
+	return false
+}
+
 // ---------------------------------------------------------------------------------------------
 // R1
 
